@@ -60,7 +60,6 @@ impl VIndex {
     pub uninterp spec fn tree(&self) -> Map<u64, Node>;
     pub uninterp spec fn ht(&self) -> Map<u64, nat>;
     pub uninterp spec fn log(&self) -> Seq<(u64, bool)>;
-
 }
 /// the ghost node an (iterator -> Vec) CirTreeNodeIterator stands for
 spec fn node_of(it: CirTreeNodeIterator<Vec<CirTreeNodeLeaf>, Vec<CirTreeNodeNonLeaf>>) -> Node {
@@ -94,6 +93,7 @@ impl VIndex {
 //@extract method bigtools/src/bbi/bbiread.rs blocks_for_cir_tree_node "BBIFileRead for S\b"
 //@sub /io::Result<\((.*)\)>/ => Result<(\1), IoError>
 //@sub /SmallVec<\[([^;\]]+); 4\]>/ => Vec<\1> min=2
+//@sub /smallvec!\[\]/ => Vec::new() min=0
 //@ret r
 //@sig
         ensures
@@ -276,6 +276,7 @@ proof fn lemma_seq_concat(c: Ctx, a: Seq<u64>, b: Seq<u64>)
 proof fn lemma_step(c: Ctx, wl: Seq<u64>)
     requires tree_wf(c), all_stored(c, wl), wl.len() > 0,
     ensures
+        [[L: lemma/step_pop_front_push_children_front_preserves_preorder]]
         dfs_seq(c, wl) == blocks_of(c, wl[0]) + dfs_seq(c, kids_of(c, wl[0]) + wl.drop_first()),
         visit_seq(c, wl) == seq![wl[0]] + visit_seq(c, kids_of(c, wl[0]) + wl.drop_first()),
         all_stored(c, kids_of(c, wl[0]) + wl.drop_first()),
@@ -302,10 +303,210 @@ proof fn lemma_single(c: Ctx, at: u64)
     assert(dfs_seq(c, seq![at]) =~= dfs(c, at) + dfs_seq(c, Seq::<u64>::empty()));
     assert(visit_seq(c, seq![at]) =~= visit(c, at) + visit_seq(c, Seq::<u64>::empty()));
 }
-/// every node the search reads is read at least... `visit` is never empty, so the measure below is positive
-proof fn lemma_visit_nonempty(c: Ctx, off: u64)
-    ensures visit(c, off).len() >= 1,
+// ---------------- search == linear scan, given span coverage (glue to rt_build / C04 rtree_span) ----------------
+spec fn leaf_in(x: CirTreeNodeLeaf, lo: (u32, u32), hi: (u32, u32)) -> bool {
+    pos_le(lo, (x.start_chrom_ix, x.start_base)) && pos_le((x.end_chrom_ix, x.end_base), hi)
+}
+spec fn nonleaf_in(x: CirTreeNodeNonLeaf, lo: (u32, u32), hi: (u32, u32)) -> bool {
+    pos_le(lo, (x.start_chrom_ix, x.start_base)) && pos_le((x.end_chrom_ix, x.end_base), hi)
+}
+spec fn items_within(xs: Seq<CirTreeNodeLeaf>, lo: (u32, u32), hi: (u32, u32)) -> bool {
+    forall|j: int| 0 <= j < xs.len() ==> leaf_in(#[trigger] xs[j], lo, hi)
+}
+/// every item stored in node n has its span inside [lo, hi]
+spec fn node_within(n: Node, lo: (u32, u32), hi: (u32, u32)) -> bool {
+    match n {
+        Node::Leaf(items) => items_within(items, lo, hi),
+        Node::NonLeaf(items) => forall|j: int| 0 <= j < items.len() ==> nonleaf_in(#[trigger] items[j], lo, hi),
+    }
+}
+/// span coverage, one level at a time (what the builder must establish: C04 `rtree_span`): the span
+/// recorded for a child pointer covers the span of every item stored in the child node.
+spec fn span_cover(c: Ctx) -> bool {
+    forall|off: u64, i: int| c.t.contains_key(off) && c.t[off] is NonLeaf && 0 <= i < c.t[off]->NonLeaf_0.len()
+        ==> node_within(c.t[#[trigger] kid_off(c, off, i)],
+                (c.t[off]->NonLeaf_0[i].start_chrom_ix, c.t[off]->NonLeaf_0[i].start_base),
+                (c.t[off]->NonLeaf_0[i].end_chrom_ix, c.t[off]->NonLeaf_0[i].end_base))
+}
+/// all leaf items below `off`, unfiltered, in pre-order ( = what a linear scan over the blocks sees)
+spec fn all_items(c: Ctx, off: u64) -> Seq<CirTreeNodeLeaf>
+    decreases c.ht[off], 1nat, 0nat
 {
+    if !c.t.contains_key(off) { Seq::empty() }
+    else {
+        match c.t[off] {
+            Node::Leaf(items) => items,
+            Node::NonLeaf(items) => all_items_pref(c, items, items.len() as int, c.ht[off]),
+        }
+    }
+}
+/// ... below the first n child pointers of a non-leaf node (`bound` only for well-foundedness)
+spec fn all_items_pref(c: Ctx, items: Seq<CirTreeNodeNonLeaf>, n: int, bound: nat) -> Seq<CirTreeNodeLeaf>
+    decreases bound, 0nat, n
+{
+    if n <= 0 { Seq::empty() }
+    else {
+        all_items_pref(c, items, n - 1, bound)
+            + (if c.ht[items[n - 1].node_offset] < bound { all_items(c, items[n - 1].node_offset) } else { Seq::empty() })
+    }
+}
+/// the linear scan: keep the blocks of the items that intersect the query, in order
+spec fn scan(c: Ctx, xs: Seq<CirTreeNodeLeaf>) -> Seq<Block> { filter_blocks(xs, c.q, c.qs, c.qe, xs.len() as int) }
+
+proof fn lemma_filter_blocks_concat(a: Seq<CirTreeNodeLeaf>, b: Seq<CirTreeNodeLeaf>, q: u32, qs: u32, qe: u32, m: int)
+    requires 0 <= m <= b.len(),
+    ensures
+        filter_blocks(a + b, q, qs, qe, a.len() + m) == filter_blocks(a, q, qs, qe, a.len() as int) + filter_blocks(b, q, qs, qe, m),
+    decreases m,
+{
+    if m == 0 {
+        lemma_filter_blocks_prefix(a, b, q, qs, qe, a.len() as int);
+        assert(filter_blocks(a, q, qs, qe, a.len() as int) + filter_blocks(b, q, qs, qe, 0) =~= filter_blocks(a, q, qs, qe, a.len() as int));
+    } else {
+        lemma_filter_blocks_concat(a, b, q, qs, qe, m - 1);
+        assert((a + b)[a.len() + m - 1] == b[m - 1]);
+        let l = filter_blocks(a, q, qs, qe, a.len() as int);
+        let r = filter_blocks(b, q, qs, qe, m - 1);
+        if leaf_hit(b[m - 1], q, qs, qe) {
+            assert((l + r).push(leaf_block(b[m - 1])) =~= l + r.push(leaf_block(b[m - 1])));
+        }
+    }
+}
+proof fn lemma_filter_blocks_prefix(a: Seq<CirTreeNodeLeaf>, b: Seq<CirTreeNodeLeaf>, q: u32, qs: u32, qe: u32, m: int)
+    requires 0 <= m <= a.len(),
+    ensures filter_blocks(a + b, q, qs, qe, m) == filter_blocks(a, q, qs, qe, m),
+    decreases m,
+{
+    if m > 0 {
+        lemma_filter_blocks_prefix(a, b, q, qs, qe, m - 1);
+        assert((a + b)[m - 1] == a[m - 1]);
+    }
+}
+proof fn lemma_scan_concat(c: Ctx, a: Seq<CirTreeNodeLeaf>, b: Seq<CirTreeNodeLeaf>)
+    ensures scan(c, a + b) == scan(c, a) + scan(c, b),
+{
+    lemma_filter_blocks_concat(a, b, c.q, c.qs, c.qe, b.len() as int);
+}
+/// items inside a span that the query does not intersect are all rejected (contrapositive of nesting)
+proof fn lemma_scan_none(c: Ctx, xs: Seq<CirTreeNodeLeaf>, lo: (u32, u32), hi: (u32, u32), m: int)
+    requires items_within(xs, lo, hi), !overlaps_spec(c.q, c.qs, c.qe, lo.0, lo.1, hi.0, hi.1), 0 <= m <= xs.len(),
+    ensures filter_blocks(xs, c.q, c.qs, c.qe, m) == Seq::<Block>::empty(),
+    decreases m,
+{
+    if m > 0 {
+        lemma_scan_none(c, xs, lo, hi, m - 1);
+        assert(leaf_in(xs[m - 1], lo, hi));
+    }
+}
+proof fn lemma_within(c: Ctx, off: u64, lo: (u32, u32), hi: (u32, u32))
+    requires tree_wf(c), span_cover(c), c.t.contains_key(off), node_within(c.t[off], lo, hi),
+    [[L: lemma/descendant_items_inside_ancestor_span]]
+    ensures items_within(all_items(c, off), lo, hi),
+    decreases c.ht[off], 1nat, 0nat,
+{
+    match c.t[off] {
+        Node::Leaf(items) => {}
+        Node::NonLeaf(items) => { lemma_within_pref(c, off, items.len() as int, lo, hi); }
+    }
+}
+proof fn lemma_within_pref(c: Ctx, off: u64, n: int, lo: (u32, u32), hi: (u32, u32))
+    requires tree_wf(c), span_cover(c), c.t.contains_key(off), c.t[off] is NonLeaf, node_within(c.t[off], lo, hi),
+        0 <= n <= c.t[off]->NonLeaf_0.len(),
+    ensures items_within(all_items_pref(c, c.t[off]->NonLeaf_0, n, c.ht[off]), lo, hi),
+    decreases c.ht[off], 0nat, n,
+{
+    let items = c.t[off]->NonLeaf_0;
+    if n > 0 {
+        lemma_within_pref(c, off, n - 1, lo, hi);
+        let it = items[n - 1];
+        let k = kid_off(c, off, n - 1);
+        assert(k == it.node_offset);
+        assert(c.t.contains_key(k) && c.ht[k] < c.ht[off]);
+        assert(nonleaf_in(it, lo, hi));
+        let ilo = (it.start_chrom_ix, it.start_base);
+        let ihi = (it.end_chrom_ix, it.end_base);
+        assert(node_within(c.t[k], ilo, ihi));
+        // transitivity: inside the child's recorded span ==> inside [lo, hi]
+        match c.t[k] {
+            Node::Leaf(xs) => {
+                assert forall|j: int| 0 <= j < xs.len() implies leaf_in(#[trigger] xs[j], lo, hi) by { assert(leaf_in(xs[j], ilo, ihi)); }
+            }
+            Node::NonLeaf(xs) => {
+                assert forall|j: int| 0 <= j < xs.len() implies nonleaf_in(#[trigger] xs[j], lo, hi) by { assert(nonleaf_in(xs[j], ilo, ihi)); }
+            }
+        }
+        lemma_within(c, k, lo, hi);
+        let p = all_items_pref(c, items, n - 1, c.ht[off]);
+        let x = all_items(c, k);
+        assert forall|j: int| 0 <= j < (p + x).len() implies leaf_in(#[trigger] (p + x)[j], lo, hi) by {
+            if j < p.len() { assert((p + x)[j] == p[j]); } else { assert((p + x)[j] == x[j - p.len()]); }
+        }
+    }
+}
+/// C05: "finds every block whose span intersects the query and returns the blocks in file order,
+/// exactly as a linear scan over all blocks would" -- for every well-founded tree with span coverage.
+proof fn lemma_dfs_is_scan(c: Ctx, off: u64)
+    requires tree_wf(c), span_cover(c), c.t.contains_key(off),
+    [[L: lemma/dfs_is_scan]]
+    ensures dfs(c, off) == scan(c, all_items(c, off)),
+    decreases c.ht[off], 1nat, 0nat,
+{
+    match c.t[off] {
+        Node::Leaf(items) => {
+            assert(kids_of(c, off) =~= Seq::<u64>::empty());
+            assert(dfs(c, off) =~= blocks_of(c, off));
+        }
+        Node::NonLeaf(items) => {
+            lemma_dfs_is_scan_pref(c, off, items.len() as int);
+            lemma_kids_lower(c, off);
+            lemma_list_is_seq(c, kids_of(c, off), c.ht[off]);
+            assert(dfs(c, off) =~= dfs_seq(c, kids_of(c, off)));
+        }
+    }
+}
+proof fn lemma_dfs_is_scan_pref(c: Ctx, off: u64, n: int)
+    requires tree_wf(c), span_cover(c), c.t.contains_key(off), c.t[off] is NonLeaf, 0 <= n <= c.t[off]->NonLeaf_0.len(),
+    ensures
+        dfs_seq(c, filter_children(c.t[off]->NonLeaf_0, c.q, c.qs, c.qe, n))
+            == scan(c, all_items_pref(c, c.t[off]->NonLeaf_0, n, c.ht[off])),
+    decreases c.ht[off], 0nat, n,
+{
+    let items = c.t[off]->NonLeaf_0;
+    if n > 0 {
+        lemma_dfs_is_scan_pref(c, off, n - 1);
+        let it = items[n - 1];
+        let k = kid_off(c, off, n - 1);
+        assert(k == it.node_offset);
+        assert(c.t.contains_key(k) && c.ht[k] < c.ht[off]);
+        let prev = filter_children(items, c.q, c.qs, c.qe, n - 1);
+        let p = all_items_pref(c, items, n - 1, c.ht[off]);
+        let x = all_items(c, k);
+        lemma_scan_concat(c, p, x);
+        if nonleaf_hit(it, c.q, c.qs, c.qe) {
+            lemma_dfs_is_scan(c, k);
+            lemma_seq_concat(c, prev, seq![k]);
+            lemma_single(c, k);
+            assert(prev.push(k) =~= prev + seq![k]);
+        } else {
+            let ilo = (it.start_chrom_ix, it.start_base);
+            let ihi = (it.end_chrom_ix, it.end_base);
+            assert(node_within(c.t[k], ilo, ihi));
+            lemma_within(c, k, ilo, ihi);
+            lemma_scan_none(c, x, ilo, ihi, x.len() as int);
+            assert(scan(c, p) + scan(c, x) =~= scan(c, p));
+        }
+    } else {
+        assert(scan(c, Seq::<CirTreeNodeLeaf>::empty()) =~= Seq::<Block>::empty());
+    }
+}
+proof fn theorem_search_equals_linear_scan(c: Ctx, root: u64)
+    requires
+        tree_wf(c), span_cover(c), c.t.contains_key(root),
+    ensures
+        [[L: dfs_equals_linear_scan_given_span_coverage]]
+        dfs(c, root) == filter_blocks(all_items(c, root), c.q, c.qs, c.qe, all_items(c, root).len() as int),
+{
+    lemma_dfs_is_scan(c, root);
 }
 
 // CirTreeBlockSearchIter: reader type parameter R -> VIndex (R11).
@@ -376,7 +577,7 @@ impl<'a> CirTreeBlockSearchIter<'a> {
 //@sub /io::Result<Vec<Block>>/ => Result<Vec<Block>, IoError>
 //@sub /let iter = CirTreeBlockSearchIter/ => let mut iter = CirTreeBlockSearchIter
 //@sub /for i in iter \{/ => loop {\n        let i = match iter.next() { None => { break; } Some(r__) => r__ };
-//@sub /blocks\.extend\(i\);/ => extend_vec(&mut blocks, i);
+//@sub /blocks\.extend\(i\);/ => extend_vec(&mut blocks, i); min=0
 //@ret r
 //@sig
     requires
@@ -401,7 +602,7 @@ impl<'a> CirTreeBlockSearchIter<'a> {
 //@at /let mut iter = CirTreeBlockSearchIter/ before
     proof {
         lemma_single(c, at);
-        assert(remaining_childblocks@ =~= seq![at]);
+        assert(remaining_childblocks@ =~= seq![at]); [[L: worklist_starts_as_the_root_only]]
         assert(ok_reads(done) =~= Seq::<(u64, bool)>::empty());
         assert(log0 + ok_reads(done) =~= log0);
         assert(done + visit_seq(c, seq![at]) =~= visit(c, at));
@@ -450,7 +651,7 @@ impl<'a> CirTreeBlockSearchIter<'a> {
 //@at /^    Ok\(blocks\)/ before
     proof {
         // reached only after `break`: the work-list is empty
-        assert(iter.remaining_childblocks@ =~= Seq::<u64>::empty());
+        assert(iter.remaining_childblocks@ =~= Seq::<u64>::empty()); [[L: loop_ends_only_on_empty_worklist]]
         assert(blocks@ + Seq::<Block>::empty() =~= blocks@);
         assert(done + Seq::<u64>::empty() =~= done);
     }
